@@ -17,6 +17,7 @@ import (
 	"fmt"
 	"sort"
 	"strings"
+	"sync"
 	"sync/atomic"
 
 	"github.com/XiaoMi/Gaea/mysql"
@@ -74,6 +75,8 @@ func (c *tcase) build() string {
 	return sk[0] + strings.Join(parts, joiners[c.Joiner]) + sk[1]
 }
 
+var parsers = sync.Pool{New: func() interface{} { return parser.New() }}
+
 type markerVisitor struct{ offs []int }
 
 func (v *markerVisitor) Enter(n ast.Node) (ast.Node, bool) {
@@ -89,7 +92,9 @@ func (v *markerVisitor) Leave(n ast.Node) (ast.Node, bool) { return n, true }
 func grammarMarkers(sql string) (offs []int, ok bool) {
 	var stmt ast.StmtNode
 	var err error
-	if p := ev.Catch(func() { stmt, err = parser.New().ParseOneStmt(sql, "", "") }); p != nil || err != nil || stmt == nil {
+	ps := parsers.Get().(*parser.Parser)
+	defer parsers.Put(ps)
+	if p := ev.Catch(func() { stmt, err = ps.ParseOneStmt(sql, "", "") }); p != nil || err != nil || stmt == nil {
 		return nil, false
 	}
 	v := &markerVisitor{}
@@ -306,10 +311,10 @@ func main() {
 	}
 
 	// universe = blocks (length, skeleton x joiner combo), shortest first. Quick: every combo
-	// up to length 4 and the first combo at length 5; thorough: every combo up to length 6.
-	fullLen, extraLen := 4, 5
+	// up to length 4; thorough: every combo up to length 5 and the first combo at length 6.
+	fullLen, extraLen := 4, 4
 	if r.Thorough() {
-		fullLen, extraLen = 6, 6
+		fullLen, extraLen = 5, 6
 	}
 	a := len(pieces)
 	combos := len(skeletons) * len(joiners)
